@@ -14,9 +14,11 @@ package cx13wsbridge
 
 import (
 	"encoding/json"
+	"fmt"
 	"net"
 	"os"
 	"os/signal"
+	"path/filepath"
 	"sort"
 	"strings"
 	"sync"
@@ -42,10 +44,28 @@ type sideMsg struct {
 	EofExit bool              `json:"eofexit,omitempty"`
 }
 
-func TestMain(m *testing.M) {
+// childMode: is this process the spawned command, and where is the side channel?
+//
+//	<binary> wsbridge-child <socket> ...     the socket is named
+//	<dir>/wsbridge-child-<n> ...             (a symbolic link to the binary: a command without
+//	                                         arguments) the socket is <dir>/side.sock
+func childMode() (string, bool) {
 	if len(os.Args) >= 3 && os.Args[1] == "wsbridge-child" {
-		childMain()
+		return os.Args[2], true
+	}
+	if strings.HasPrefix(filepath.Base(os.Args[0]), "wsbridge-child-") {
+		return filepath.Join(filepath.Dir(os.Args[0]), "side.sock"), true
+	}
+	return "", false
+}
+
+func TestMain(m *testing.M) {
+	if sock, ok := childMode(); ok {
+		childMain(sock)
 		os.Exit(0)
+	}
+	if _, spawned := os.LookupEnv("GATEWAY_INTERFACE"); spawned {
+		os.Exit(94) // started by a websocket directive without the child marker: never run the tests from there
 	}
 	os.Exit(m.Run())
 }
@@ -66,21 +86,34 @@ func listFds() map[string]string {
 	return out
 }
 
-func childMain() {
+func childMain(sock string) {
 	fds := listFds()
-	c, err := net.Dial("unix", os.Args[2])
+	// whatever the Go runtime has to say about this process (a crash) goes to a file next to the
+	// socket instead of /dev/null; the exits below say why
+	if f, err := os.OpenFile(filepath.Join(filepath.Dir(sock), "child.err"), os.O_CREATE|os.O_WRONLY|os.O_APPEND, 0o644); err == nil {
+		syscall.Dup3(int(f.Fd()), 2, 0)
+		f.Close()
+	}
+	exit := func(code int, why string) {
+		fmt.Fprintf(os.Stderr, "child %d: exit %d: %s\n", os.Getpid(), code, why)
+		os.Exit(code)
+	}
+	c, err := net.Dial("unix", sock)
 	if err != nil {
-		os.Exit(90)
+		exit(90, "dial: "+err.Error())
 	}
 	var wmu sync.Mutex
 	enc := json.NewEncoder(c)
 	send := func(m sideMsg) {
 		wmu.Lock()
-		if enc.Encode(m) != nil {
-			os.Exit(91)
+		if err := enc.Encode(m); err != nil {
+			exit(91, "send: "+err.Error())
 		}
 		wmu.Unlock()
 	}
+	// before anything is said: a signal that arrives before Notify would have its default action
+	sigc := make(chan os.Signal, 8)
+	signal.Notify(sigc, syscall.SIGINT, syscall.SIGTERM, syscall.SIGHUP, syscall.SIGQUIT)
 	cwd, _ := os.Getwd()
 	// the environment as it was handed over by exec (this binary's own init functions call
 	// os.Setenv, which /proc/self/environ does not follow)
@@ -98,16 +131,16 @@ func childMain() {
 	send(sideMsg{Ev: "hello", Pid: os.Getpid(), Argv: os.Args, Env: env, Fds: fds, Cwd: cwd})
 	dec := json.NewDecoder(c)
 	var mode sideMsg
-	if dec.Decode(&mode) != nil || mode.Op != "mode" {
-		os.Exit(92)
+	if err := dec.Decode(&mode); err != nil || mode.Op != "mode" {
+		exit(92, fmt.Sprintf("mode: %v %+v", err, mode))
 	}
 	acks := make(chan struct{}, 8)
 	cmds := make(chan sideMsg, 64)
 	go func() {
 		for {
 			var m sideMsg
-			if dec.Decode(&m) != nil {
-				os.Exit(93) // the harness is gone: never outlive it
+			if err := dec.Decode(&m); err != nil {
+				exit(93, "side channel: "+err.Error()) // the harness is gone: never outlive it
 			}
 			if m.Op == "ack" {
 				acks <- struct{}{}
@@ -117,15 +150,18 @@ func childMain() {
 		}
 	}()
 	var amu sync.Mutex
+	dying := false
 	announce := func(m sideMsg) { // send and wait until the harness has logged it
 		amu.Lock()
+		if dying {
+			select {} // the exit is announced already: nothing more is said
+		}
 		send(m)
 		<-acks
+		dying = m.Dies
 		amu.Unlock()
 	}
 
-	sigc := make(chan os.Signal, 8)
-	signal.Notify(sigc, syscall.SIGINT, syscall.SIGTERM, syscall.SIGHUP, syscall.SIGQUIT)
 	go func() {
 		for s := range sigc {
 			name := map[os.Signal]string{syscall.SIGINT: "INT", syscall.SIGTERM: "TERM", syscall.SIGHUP: "HUP", syscall.SIGQUIT: "QUIT"}[s]
@@ -167,6 +203,9 @@ func childMain() {
 			os.Stdout.Close()
 			send(sideMsg{Ev: "closedout"})
 		case "exit":
+			// told to leave: said first, like every exit (what the command still does in between -
+			// seeing the end of stdin, taking a signal - it has then said before)
+			announce(sideMsg{Ev: "exiting", S: "cmd", Dies: true})
 			os.Exit(m.Code)
 		}
 	}
